@@ -20,7 +20,9 @@ PATHNAME = {"PArrowRead": "arrow-read", "PArrowWrite": "arrow-write", "PDynRead"
             "PThisRead": "this-read", "PThisWrite": "this-write", "PCall": "call", "PDynCall": "dyn-call",
             "PThisCall": "this-call", "PStaticCall": "static-call", "PStaticRead": "static-read",
             "PStaticWrite": "static-write", "PParentCall": "parent-call", "PIndexRead": "index-read",
-            "PIndexWrite": "index-write"}
+            "PIndexWrite": "index-write", "PUnset": "unset", "PRefArg": "ref-arg", "PForeach": "foreach",
+            "PNestedAppend": "nested-append", "PCallable": "callable-array", "PThisIndexRead": "this-index-read",
+            "PThisIndexWrite": "this-index-write", "PSelfProp": "self-prop", "PStaticKwCall": "static-kw-call"}
 
 
 # ------------------------------------------------------------------ hierarchy helpers
@@ -48,7 +50,8 @@ class H:
         res = []
         for tag, _, _ in MODS:
             res += [(pre + tag, "prop", tag), (pre + "s" + tag, "sprop", tag),
-                    (pre + "m" + tag, "meth", tag), (pre + "sm" + tag, "smeth", tag)]
+                    (pre + "m" + tag, "meth", tag), (pre + "sm" + tag, "smeth", tag),
+                    (pre + "a" + tag, "aprop", tag)]
         return res
 
     def resolvable(self, c, kind):
@@ -86,6 +89,8 @@ def vis_script_and_probes(h, only=None):
     allnames = [n for n, _ in h.classes]
     props = {x: [m for m in h.members(x) if m[1] == "prop"] for x in h.declaring}
     L.append("function sink($x) { return 1; }")
+    L.append("function setref(&$x) { $x = 77; return 1; }")
+    L.append('function deny() { throw new Exception("not listed"); }')
     for k, par in h.classes:
         L.append("class %s%s {" % (k, (" extends " + par) if par else ""))
         init = {"pu": 1, "pr": 2, "pv": 3}
@@ -94,6 +99,9 @@ def vis_script_and_probes(h, only=None):
             if kind == "prop":
                 L.append("  %s $%s = %d;" % (mod, n, init[tag]))
                 L.append("  public function pk_%s() { return $this->%s; }" % (n, n))
+            elif kind == "aprop":
+                L.append("  %s $%s = [0];" % (mod, n))
+                L.append("  public function pk_%s() { return json_encode($this->%s); }" % (n, n))
             elif kind == "sprop":
                 L.append("  %s static $%s = %d;" % (mod, n, init[tag] + 10))
             elif kind == "meth":
@@ -106,15 +114,24 @@ def vis_script_and_probes(h, only=None):
         L.append("  public function %s_dycl($o, $n) { return $o->{$n}(); }" % k)
         L.append("  public function %s_ixrd($o, $n) { return $o[$n]; }" % k)
         L.append("  public function %s_ixwr($o, $n, $v) { $o[$n] = $v; return 1; }" % k)
+        L.append('  public function %s_fe($o, $n) { foreach ($o as $k => $v) { if ($k == $n) { return 1; } } throw new Exception("not listed"); }' % k)
+        L.append("  public function %s_cuf($o, $n) { return call_user_func([$o, $n]); }" % k)
+        L.append("  public function %s_arc($o, $n) { $f = [$o, $n]; return $f(); }" % k)
+        L.append("  public function %s_tixrd($n) { return $this[$n]; }" % k)
+        L.append("  public function %s_tixwr($n, $v) { $this[$n] = $v; return 1; }" % k)
         for x in h.declaring:
             for n, kind, tag in h.members(x):
                 if kind == "prop":
                     L.append("  public function %s_rd_%s($o) { return $o->%s; }" % (k, n, n))
                     L.append("  public function %s_wr_%s($o, $v) { $o->%s = $v; return 1; }" % (k, n, n))
                     L.append("  public function %s_crd_%s($o) { $f = function() use ($o) { return $o->%s; }; return $f(); }" % (k, n, n))
+                    L.append("  public function %s_un_%s($o) { unset($o->%s); return 1; }" % (k, n, n))
+                    L.append("  public function %s_ref_%s($o) { return setref($o->%s); }" % (k, n, n))
                     if h.le(k, x):
                         L.append("  public function %s_trd_%s() { return $this->%s; }" % (k, n, n))
                         L.append("  public function %s_twr_%s($v) { $this->%s = $v; return 1; }" % (k, n, n))
+                elif kind == "aprop":
+                    L.append("  public function %s_ap_%s($o) { $o->%s[] = 5; return 1; }" % (k, n, n))
                 elif kind == "meth":
                     L.append("  public function %s_cl_%s($o) { return $o->%s(); }" % (k, n, n))
                     L.append("  public function %s_ccl_%s($o) { $f = function() use ($o) { return $o->%s(); }; return $f(); }" % (k, n, n))
@@ -128,7 +145,12 @@ def vis_script_and_probes(h, only=None):
                             L.append("  public function %s_st_%s_%s() { return %s::%s(); }" % (k, named, n, named, n))
                     if par and h.le(par, x):
                         L.append("  public function %s_pa_%s() { return parent::%s(); }" % (k, n, n))
+                    if h.le(k, x):
+                        L.append("  public function %s_selfc_%s() { return self::%s(); }" % (k, n, n))
+                        L.append("  public function %s_statc_%s() { return static::%s(); }" % (k, n, n))
                 else:
+                    if h.le(k, x):
+                        L.append("  public function %s_selfp_%s() { return self::$%s; }" % (k, n, n))
                     for named in allnames:
                         if h.le(named, x):
                             L.append("  public function %s_sr_%s_%s() { return %s::$%s; }" % (k, named, n, named, n))
@@ -144,13 +166,13 @@ def vis_script_and_probes(h, only=None):
         L.append('try { sink(%s); echo "A\\n"; } catch (Throwable $e) { echo "D\\n"; }' % expr)
         probes.append({"site": site, "path": path, "c": c, "m": m, "d": d, "tag": tag, "store": None, "extra": extra})
 
-    def wr(stmt, readback, site, path, c, m, d, tag, init, extra=None):
+    def wr(stmt, readback, site, path, c, m, d, tag, init, extra=None, expect="77"):
         extra = cur["mark"] if extra is None else extra
         if only and only != (tuple(site), path, c, m):
             return
         # $t is a fresh target; the value is read back through a getter of the declaring class
         L.append('$t = new %s(); try { %s echo "A"; } catch (Throwable $e) { echo "D"; } echo ":", %s, "\\n";' % (c, stmt, readback))
-        probes.append({"site": site, "path": path, "c": c, "m": m, "d": d, "tag": tag, "store": init, "extra": extra})
+        probes.append({"site": site, "path": path, "c": c, "m": m, "d": d, "tag": tag, "store": init, "extra": extra, "expect": expect})
 
     init = {"pu": 1, "pr": 2, "pv": 3}
     targets = [n for n, _ in h.classes if h.resolvable(n, "prop")]
@@ -176,10 +198,19 @@ def vis_script_and_probes(h, only=None):
                 wr("$t->%s = 77;" % n, "$t->pk_%s()" % n, ["out"], "PArrowWrite", c, n, d, tag, init[tag])
                 wr("$t->{$nm} = 77;", "$t->pk_%s()" % n, ["out"], "PDynWrite", c, n, d, tag, init[tag])
                 wr("$t[$nm] = 77;", "$t->pk_%s()" % n, ["out"], "PIndexWrite", c, n, d, tag, init[tag])
+                wr("unset($t->%s);" % n, "$t->pk_%s()" % n, ["out"], "PUnset", c, n, d, tag, init[tag], expect="")
+                wr("setref($t->%s);" % n, "$t->pk_%s()" % n, ["out"], "PRefArg", c, n, d, tag, init[tag])
+                L.append('$seen = 0; foreach ($o as $k => $v) { if ($k == "%s") { $seen = 1; } }' % n)
+                rd('$seen ? 1 : deny()', ["out"], "PForeach", c, n, d, tag)
+            for n, d, tag in keep(h.resolvable(c, "aprop")):
+                wr("$t->%s[] = 5;" % n, "$t->pk_%s()" % n, ["out"], "PNestedAppend", c, n, d, tag, "[0]", expect="[0,5]")
             for n, d, tag in keep(h.resolvable(c, "meth")):
                 rd("$o->%s()" % n, ["out"], "PCall", c, n, d, tag)
                 L.append('$nm = "%s";' % n)
                 rd("$o->{$nm}()", ["out"], "PDynCall", c, n, d, tag)
+                rd("call_user_func([$o, $nm])", ["out"], "PCallable", c, n, d, tag)
+                L.append("$cb = [$o, $nm];")
+                rd("$cb()", ["out"], "PCallable", c, n, d, tag, "array-call" + ("," + mark if mark else ""))
             for n, d, tag in keep(h.resolvable(c, "smeth")):
                 rd("%s::%s()" % (c, n), ["out"], "PStaticCall", c, n, d, tag)
             for n, d, tag in keep(h.resolvable(c, "sprop")):
@@ -201,7 +232,14 @@ def vis_script_and_probes(h, only=None):
                         wr("$s->%s_wr_%s($t, 77);" % (l, n), "$t->pk_%s()" % n, site, "PArrowWrite", c, n, d, tag, init[tag])
                         wr('$s->%s_dywr($t, "%s", 77);' % (l, n), "$t->pk_%s()" % n, site, "PDynWrite", c, n, d, tag, init[tag])
                         wr('$s->%s_ixwr($t, "%s", 77);' % (l, n), "$t->pk_%s()" % n, site, "PIndexWrite", c, n, d, tag, init[tag])
+                        wr("$s->%s_un_%s($t);" % (l, n), "$t->pk_%s()" % n, site, "PUnset", c, n, d, tag, init[tag], expect="")
+                        wr("$s->%s_ref_%s($t);" % (l, n), "$t->pk_%s()" % n, site, "PRefArg", c, n, d, tag, init[tag])
+                        rd('$s->%s_fe($o, "%s")' % (l, n), site, "PForeach", c, n, d, tag)
+                    for n, d, tag in keep(h.resolvable(c, "aprop")):
+                        wr("$s->%s_ap_%s($t);" % (l, n), "$t->pk_%s()" % n, site, "PNestedAppend", c, n, d, tag, "[0]", expect="[0,5]")
                     for n, d, tag in keep(h.resolvable(c, "meth")):
+                        rd('$s->%s_cuf($o, "%s")' % (l, n), site, "PCallable", c, n, d, tag)
+                        rd('$s->%s_arc($o, "%s")' % (l, n), site, "PCallable", c, n, d, tag, "array-call" + ("," + mark if mark else ""))
                         rd("$s->%s_cl_%s($o)" % (l, n), site, "PCall", c, n, d, tag)
                         rd("$s->%s_ccl_%s($o)" % (l, n), site, "PCall", c, n, d, tag, "closure" + ("," + mark if mark else ""))
                         rd('$s->%s_dycl($o, "%s")' % (l, n), site, "PDynCall", c, n, d, tag)
@@ -214,9 +252,17 @@ def vis_script_and_probes(h, only=None):
                     rd("$s->%s_trd_%s()" % (l, n), site, "PThisRead", r, n, d, tag)
                     if not only or only == (tuple(site), "PThisWrite", r, n):
                         L.append('$t = new %s(); try { $t->%s_twr_%s(77); echo "A"; } catch (Throwable $e) { echo "D"; } echo ":", $t->pk_%s(), "\\n";' % (r, l, n, n))
-                        probes.append({"site": site, "path": "PThisWrite", "c": r, "m": n, "d": d, "tag": tag, "store": init[tag], "extra": mark})
+                        probes.append({"site": site, "path": "PThisWrite", "c": r, "m": n, "d": d, "tag": tag, "store": init[tag], "extra": mark, "expect": "77"})
+                    rd('$s->%s_tixrd("%s")' % (l, n), site, "PThisIndexRead", r, n, d, tag)
+                    L.append('$t = new %s(); try { $t->%s_tixwr("%s", 77); echo "A"; } catch (Throwable $e) { echo "D"; } echo ":", $t->pk_%s(), "\\n";' % (r, l, n, n))
+                    probes.append({"site": site, "path": "PThisIndexWrite", "c": r, "m": n, "d": d, "tag": tag, "store": init[tag], "extra": mark, "expect": "77"})
                 for n, d, tag in keep(h.resolvable(l, "meth")):
                     rd("$s->%s_tcl_%s()" % (l, n), site, "PThisCall", r, n, d, tag)
+                for n, d, tag in keep(h.resolvable(l, "smeth")):
+                    rd("$s->%s_selfc_%s()" % (l, n), site, "PStaticCall", l, n, d, tag, "self::" + ("," + mark if mark else ""))
+                    rd("$s->%s_statc_%s()" % (l, n), site, "PStaticKwCall", r, n, d, tag)
+                for n, d, tag in keep(h.resolvable(l, "sprop")):
+                    rd("$s->%s_selfp_%s()" % (l, n), site, "PSelfProp", r, n, d, tag)
                 par = h.parent[l]
                 if par:
                     for kind in ("meth", "smeth"):
@@ -230,7 +276,7 @@ def vis_script_and_probes(h, only=None):
         for n, kind, tag in h.members(x):
             if kind == "sprop" and (not only or only == (("out",), "PStaticWrite", x, n)):
                 L.append('try { %s::$%s = 77; echo "A"; } catch (Throwable $e) { echo "D"; } echo ":", %s::$%s, "\\n";' % (x, n, x, n))
-                probes.append({"site": ["out"], "path": "PStaticWrite", "c": x, "m": n, "d": x, "tag": tag, "store": init[tag] + 10, "extra": ""})
+                probes.append({"site": ["out"], "path": "PStaticWrite", "c": x, "m": n, "d": x, "tag": tag, "store": init[tag] + 10, "extra": "", "expect": "77"})
     return "\n".join(L) + "\n", probes
 
 
@@ -241,7 +287,7 @@ def coq_table(h):
         ps, ms = [], []
         for n, kind, tag in h.members(k):
             term = '{| mb_name := "%s"; mb_mod := %s; mb_static := %s |}' % (n, modc[tag], "true" if kind in ("sprop", "smeth") else "false")
-            (ps if kind in ("prop", "sprop") else ms).append(term)
+            (ps if kind in ("prop", "sprop", "aprop") else ms).append(term)
         items.append('("%s", {| c_extends := %s; c_props := %s; c_meths := %s |})' % (
             k, ('(Some "%s")' % par) if par else "None", coq_list(ps), coq_list(ms)))
     return coq_list(items)
@@ -294,22 +340,31 @@ TYPES = [("int", "TInt"), ("string", "TString"), ("array", "TArray"),
          ("?I", '(TNullable (TClass "I"))'), ("int|string|array", "(TUnion TInt (TUnion TString TArray))")]
 VALUES = [("int", "5", "(VInt 5)"), ("str", '"s"', '(VStr "s")'), ("arr", "[1]", "VArr"), ("A", "new A()", '(VObj "A")'),
           ("B", "new B()", '(VObj "B")'), ("C", "new C()", '(VObj "C")'), ("D", "new D()", '(VObj "D")'),
-          ("null", "null", "VNull"), ("bool", "true", "(VBool true)"), ("float", "1.5", "VFloat")]
+          ("null", "null", "VNull"), ("bool", "true", "(VBool true)"), ("float", "1.5", "VFloat"),
+          ("assoc", '["k" => 1]', "VArr"),                 # a string-keyed array is an array
+          ("S", "new S()", '(VObj "S")')]                   # an object with __toString is not a string
 # boundary sites: (label, Coq boundary)
+# further boundary sites (audit follow-up): typed static property, variadic / by-reference / closure parameters,
+# closure and static-method returns
+XSITES = [("prop:static", "BPropStatic"), ("param:variadic", "BParam"), ("param:byref", "BParam"), ("param:closure", "BParam"),
+          ("return:closure", "BReturn"), ("return:static-method", "BReturnMethod")]
 BSITES = [("prop:arrow", "BProp"), ("prop:this", "BProp"), ("prop:dyn", "BProp"), ("prop:index", "BProp"),
           ("param:function", "BParam"), ("param:static-method", "BParam"), ("param:constructor", "BParam"), ("param:method", "BParam"),
-          ("return:function", "BReturn"), ("return:method", "BReturn")]
+          ("return:function", "BReturn"), ("return:method", "BReturnMethod")] + XSITES
 
 
 def type_script_and_probes(only=None):
     """only = (boundary site label, type, value kind): replay of one cell"""
-    L = ["class A {} class B extends A {} class C {} interface I {} class D implements I {}"]
+    L = ["class A {} class B extends A {} class C {} interface I {} class D implements I {} class S { public function __toString() { return \"s\"; } }"]
     probes = []
     for ti, (tn, _) in enumerate(TYPES):
         L.append("class K%d { public %s $p; public function setp($v) { $this->p = $v; return 1; } "
                  "public function pm(%s $x) { return 1; } public static function ps(%s $x) { return 1; } "
                  "public function rm($v): %s { return $v; } }" % (ti, tn, tn, tn, tn))
         L.append("class Q%d { public function __construct(%s $x) {} }" % (ti, tn))
+        L.append("class X%d { public static %s $sp; public static function sr($v): %s { return $v; } }" % (ti, tn, tn))
+        L.append("function pv%d(%s ...$xs) { return 1; } function pb%d(%s &$x) { return 1; }" % (ti, tn, ti, tn))
+        L.append("$pc%d = function(%s $x) { return 1; }; $rc%d = function($v): %s { return $v; };" % (ti, tn, ti, tn))
         L.append("function pf%d(%s $x) { return 1; } function rf%d($v): %s { return $v; }" % (ti, tn, ti, tn))
     for ti, (tn, tc) in enumerate(TYPES):
         for vn, vsrc, vc in VALUES:
@@ -324,6 +379,12 @@ def type_script_and_probes(only=None):
                 "param:method": "$k = new K%d(); $k->pm(%s);" % (ti, vsrc),
                 "return:function": "rf%d(%s);" % (ti, vsrc),
                 "return:method": "$k = new K%d(); $k->rm(%s);" % (ti, vsrc),
+                "prop:static": "X%d::$sp = %s;" % (ti, vsrc),
+                "param:variadic": "pv%d(%s);" % (ti, vsrc),
+                "param:byref": "$bv = %s; pb%d($bv);" % (vsrc, ti),
+                "param:closure": "$pc%d(%s);" % (ti, vsrc),
+                "return:closure": "$rc%d(%s);" % (ti, vsrc),
+                "return:static-method": "X%d::sr(%s);" % (ti, vsrc),
             }
             for label, bc in BSITES:
                 if only and only != (label, tn, vn):
@@ -454,6 +515,7 @@ def main(ck):
 
     total = 0
     dist = {}
+    overdeny = {}
     # ---- visibility
     import re
     import concurrent.futures
@@ -470,17 +532,27 @@ def main(ck):
                 allowed, changed = (l == "A"), None
             else:
                 a, _, val = l.partition(":")
-                allowed, changed = (a == "A"), (val != str(p["store"]))
+                allowed, changed = (a == "A"), (val == p["expect"])
+                if val not in (p["expect"], str(p["store"])):
+                    ck.violation("vis:%s:corrupted-value" % PATHNAME[p["path"]], {"shape": h.classes, "probe": {x: p[x] for x in ("site", "path", "c", "m")},
+                                                                                  "impl_out": l, "clause": "a store leaves the old value or the stored one"})
+                if p["path"] == "PNestedAppend":
+                    # $o->p[] = v never raises: the observable is the effect; a denial that raises no error is recorded below
+                    p["silent"] = (a == "A" and not changed)
+                    allowed = changed
             p["obs"] = l
             terms.append(coq_vprobe(p, allowed, changed))
             dist[PATHNAME[p["path"]]] = dist.get(PATHNAME[p["path"]], 0) + 1
         total += len(probes)
         # evaluate every probe (not only the first difference): one Coq definition per shape
-        hdr = HEADER + "Definition tbl := %s.\nDefinition ps := %s.\n" % (coq_table(h), coq_list(terms))
-        jobs.append((hi, h, probes, hdr))
-    with concurrent.futures.ThreadPoolExecutor(max(1, len(jobs))) as ex:
-        txts = list(ex.map(lambda j: ck.eval_print(j[3], "(wf tbl, vall tbl 0 ps, %d%%nat)" % j[0], timeout=600), jobs))
-    for (hi, h, probes, hdr), txt in zip(jobs, txts):
+        # (Coq's elaboration of one huge list literal is superlinear: shards of 400 probes, evaluated in parallel)
+        CH = 400
+        for si in range(0, len(terms), CH):
+            hdr = HEADER + "Definition tbl := %s.\nDefinition ps := %s.\n" % (coq_table(h), coq_list(terms[si:si + CH]))
+            jobs.append((hi, h, probes[si:si + CH], hdr, len(jobs)))
+    with concurrent.futures.ThreadPoolExecutor(min(vcheck.NCPU, max(1, len(jobs)))) as ex:
+        txts = list(ex.map(lambda j: ck.eval_print(j[3], "(wf tbl, vall tbl 0 ps, %d%%nat)" % j[4], timeout=600), jobs))
+    for (hi, h, probes, hdr, _), txt in zip(jobs, txts):
         if ck.replay:
             side = ck.eval_print(hdr, "map (fun q => (decide tbl (v_site q) (v_path q) (v_cls q) (v_mem q), "
                                       "match resolve tbl (v_site q) (v_path q) (v_cls q) (v_mem q) with "
@@ -504,15 +576,26 @@ def main(ck):
             if 9 in cls:
                 ck.broken.append("generator:unresolved-member")
                 continue
+            if 6 in cls:
+                # refused although the rule would permit it: "usable only from" does not force success — counted, not a violation
+                ok = "%s:%s:%s" % (PATHNAME[p["path"]], p["tag"], sitekind(h, p))
+                overdeny[ok] = overdeny.get(ok, 0) + 1
             if 3 in cls or 4 in cls:
                 ck.violation(key_base + ":effect", dict(rep, clause="no_effect_on_denial / allowed store takes effect"))
             if 2 in cls:
-                direction = "over-permit" if p["obs"].startswith("A") else "over-deny"
+                direction = "over-permit" if (p["obs"].startswith("A") and not p.get("silent")) else "over-deny"
                 ck.violation(key_base + ":" + direction + ":" + detail(h, p), dict(rep, clause="decide = by_rule fails on the implementation"))
             if 1 in cls:
                 ck.broken.append("correspondence:C07.vis")
                 if 2 not in cls:
                     ck.violation("tie:" + key_base, dict(rep, clause="model vs implementation (tie)"))
+    for h, (src, probes) in zip(hs, vis):
+        for p in probes:
+            if p.get("silent"):
+                ck.violation("vis:nested-append:%s:%s:silent-denial" % ({"pu": "public", "pr": "protected", "pv": "private"}[p["tag"]], sitekind(h, p)),
+                             {"shape": h.classes, "probe": {x: p[x] for x in ("site", "path", "c", "m")}, "impl_out": p["obs"],
+                              "clause": "any other read, write or call raises a catchable error (the denied append has no effect but raises nothing)"})
+    ck.cov["refused_though_rule_permits (not violations)"] = overdeny
     # ---- instantiation
     iterms, iidx = [], []
     for j, (c, o) in enumerate(zip(icases, outs[len(vis) + 1:])):
